@@ -12,9 +12,9 @@ chk("C20", "domx",
     "Trusts the harness's own reference definitions (a few lines each, table-free) and that the exported wrappers add nothing (they are single assignments). Quick tier thins the 5.6M-second duration domain after 2 days to day boundaries and a 61 s stride.",
     "DESIGN.md section 4 C20")
 ENGINES += [
-    {"name": "envx", "path": "harness/env", "serves_properties": ["C01", "C02", "C12"],
+    {"name": "envx", "path": "harness/env", "serves_properties": ["C01", "C02", "C03", "C04", "C09", "C10", "C11", "C12"],
      "kind_free_text": "deviation-bounded exhaustive exploration of environment answers (reply menus at every Transport.Send) on the real library over an in-memory socket model, against the independent reference BMC in harness/ref"},
-    {"name": "refbmc", "path": "harness/ref", "serves_properties": ["C01", "C02", "C12"],
+    {"name": "refbmc", "path": "harness/ref", "serves_properties": ["C01", "C02", "C03", "C04", "C09", "C10", "C11", "C12"],
      "kind_free_text": "independent reference implementation of RMCP+/RAKP/integrity/AES-CBC and a small BMC (imports nothing from gebn/bmc); the oracle"},
 ]
 chk("C01", "envx+refbmc",
@@ -32,3 +32,32 @@ chk("C12", "envx+refbmc",
     "All 113 ordered preference lists over a 4-suite universe (with and without repetition, and the empty list) x all 16 advertised subsets x 3 advertisement layouts are served through real Get Channel Cipher Suites paging and compared with the documented selection rule; then every one of 150 algorithm triples is placed in the Open Session Response for each proposal, the BMC following through, and a session may only result when the triple equals the proposal.",
     "Universe of 4 suites; the BMC's follow-through makes a silently accepted downgrade observable.",
     "DESIGN.md section 4 C12, appendix A.4")
+ENGINES += [
+    {"name": "histx", "path": "harness/checks/hist.go", "serves_properties": ["C03", "C04", "C09", "C10", "C11"],
+     "kind_free_text": "envx iterated over caller histories: all command sequences up to depth D on one real connection/session x all per-attempt answer vectors with <= k deviations, replaying each path on a fresh instance"},
+]
+chk("C03", "histx+refbmc",
+    "deviation-bounded exhaustive exploration of in-session command histories on the implementation; every transmitted datagram verified by an independent BMC",
+    "For 9 suites x 77 command variants (all library commands plus caller-defined commands with request bodies of 0..48 bytes, so the plaintext length takes every residue mod 16) x single-command and 3-command histories with retransmissions (<=1 deviation quick, <=2 thorough), the reference BMC checks on every datagram: its session ID, the negotiated flags, the AuthCode (recomputed under its own K1 over auth-type..next-header), 0xFF integrity pad / pad length / next header / 4-byte alignment, AES-CBC under its own K2 with the 01,02.. pad, both checksums, that the plaintext is the caller's command, and that no IV repeats in the session.",
+    "With AES negotiated the payload is always a multiple of 16, so in-session integrity pads are always 2 bytes; other pad residues are covered at layer level by C08. Independent crypto in harness/ref (std crypto only).",
+    "DESIGN.md section 4 C03")
+chk("C04", "histx+refbmc",
+    "fault enumeration at every in-session receive point: forgery catalogue + every single-bit flip + every truncation of the authentic reply, on the implementation",
+    "At each receive point of 4 commands and of Close Session, under 3 (5 thorough) integrity suites, the honest reply is replaced by each of 20 forgeries built with the real keys (flags cleared, empty/short/long/zero/wrong-key/wrong-range AuthCode, other session IDs, unsigned plaintext, six invalid confidentiality pads under a valid signature), by every single-bit flip and by every truncation; the retry then gets the honest reply. Oracle: result equals the authentic value or is an error, and a successful call never ends on a forged datagram (decided from the transport's record of which datagram each read consumed).",
+    "k=1 complete (k=2 over the catalogue in thorough). A 16-byte correct confidentiality pad is tolerated by documented design.",
+    "DESIGN.md section 4 C04")
+chk("C09", "histx",
+    "exhaustive exploration of command histories x per-attempt outcome vectors (bounded D, A, k) on the implementation vs. a sequence-number reference model",
+    "All histories of <= D commands over a 6-command alphabet (incl. a request that cannot be serialised) plus Close, in and outside a session, x every vector of per-attempt answers with <= k deviations from {ok, final code, node busy, timeout code, garbage, truncated body, lost reply, bad signature/lost request, context expiry} up to A answers per call, plus the handshake under lost/garbage replies, plus a 24-command structured history; oracle on every transmitted datagram: in-session sequence numbers are exactly 1,2,3.. per transmission with the BMC's session ID, the console counter equals the number transmitted, everything outside a session carries session ID 0 and sequence 0.",
+    "D=2,A=3,k=2 quick; D=3,A=4,k=2 x 3 suites thorough. 'Longer random histories' of the property text are replaced by structured enumerated ones.",
+    "DESIGN.md section 4 C09, appendix A.3")
+chk("C10", "histx",
+    "same exploration as C09, compared step by step with a reference model of the documented retry contract",
+    "For every execution of the C09 space the number of transmissions and the returned (code, error) are compared with the reference retry model derived from Connection.SendCommand's documentation (retry on 0xC0/0xC3 and undecodable replies, first other code is final, session-less loss retried until the context expires, in-session transport failure terminal), and every transmission - first or repeated - must decode at the reference BMC to the caller's command, well-formed and for the right session; handshake payloads: identical retransmissions, termination, session only with the BMC's keys.",
+    "Same bounds as C09. For truncated handshake payloads the text leaves retry-or-error free.",
+    "DESIGN.md section 4 C10, appendix A.2")
+chk("C11", "histx",
+    "exhaustive exploration of 3-command histories under socket-queue events (delay, duplicate, reorder, stray reply) on the implementation",
+    "All 56 ordered pairs of distinct commands (plus a third command) outside and inside a session x all placements of <= 2 (in-session quick: 1) socket events {reply delayed past the timeout, duplicated, held until after the next reply, stray valid reply of another command first, lost} over a FIFO socket model; oracle: every nil-error result equals the BMC's answer to that very command (differential against the undisturbed run).",
+    "FIFO one-read-per-attempt socket model (that is what transport.Send does). Replies of the same NetFn/command are indistinguishable by the property's criterion and are not judged.",
+    "DESIGN.md section 4 C11, appendix A.1")
